@@ -99,6 +99,12 @@ def stepOp (st : St) (op : Sexp) : Option (St × String) :=
   | .list [.atom "newstack"] =>
     let (h, s) := st.sh.allocStack
     some ({ st with sh := h, stacks := st.stacks.push s }, s!"S{st.stacks.size}")
+  | .list [.atom "nspop"] => do
+    -- a new stack that is popped before anything else touches it (no Head() in between)
+    let (h, s) := st.sh.allocStack
+    let (h, e) ← h.pop s
+    let st := { st with sh := h, stacks := st.stacks.push s }
+    pure (regI st (some e))
   | .list [.atom "le", v] => do
     let (h, a) := st.dh.makeElem (← v.int?)
     pure (regE { st with dh := h } (some a))
